@@ -51,14 +51,15 @@ def run(ctx):
             elif d[0] == 'stmt':
                 srcs.append(fmt_sym(b, F.sym_rvalue(d[3], 0)))
         good = [s_ for s_ in srcs if s_.startswith('VecDeque::remove(') and s_.rstrip(')').endswith(FIELD)]
-        bad = [s_ for s_ in srcs if s_ not in good and 'None' not in s_]
+        # `position(..)?` hands the None of the search straight on (Option's FromResidual)
+        bad = [s_ for s_ in srcs if s_ not in good and 'None' not in s_ and not s_.startswith('FromResidual::from_residual(')]
         idx_ok = True; idx_txt = ''
         for d in b.defs().get(0, []):
             if d[0] == 'call' and d[2].callee.endswith('VecDeque::remove'):
                 idx_txt = fmt_sym(b, F.sym_operand(d[2].args[1]))
                 # the index must be the position of the match in a plain forward iteration of the same queue
                 idx_ok = False
-                if re.search(r'^Iterator::position\(.*\)@Some\.0$', idx_txt):
+                if re.search(r'^Iterator::position\(.*\)@Some\.0$', idx_txt) or re.search(r'^Try::branch\(Iterator::position\(.*\)\)@Continue\.0$', idx_txt):
                     for pc in [c for c in b.calls() if c.callee.endswith('Iterator::position')]:
                         it = pc.args[0]
                         root = it[1][0]
